@@ -66,58 +66,106 @@ def is_plain_body(body):
     return all(_TOKEN.match(t) for t in body.split(';'))
 
 
-def apply_codes(state, codes):
+def apply_codes(state, codes, unk=None):
     """Apply a list of ints to a mutable dict state.  Returns set of ambiguity tags met:
     'incomplete' (38/48/58 followed by something else than 5 / 2), 'truncated' (a 5;n / 2;r;g;b group cut short by
     the end of the list: contributes nothing), 'range' (colour value > 255).
     Ambiguous elements are skipped the way the properties word it (contribute nothing) -- callers
-    that hit an ambiguity tag do not assert the style.
+    that hit an ambiguity tag do not assert the style, or, when they pass `unk` (a set), assert only the slots
+    that are not in it afterwards: `unk` collects the slots whose value a conforming terminal could read
+    differently; an explicit later set / clear of a slot, or a reset, makes it known again.
+    Codes -1 / -2 stand for an empty / non-numeric parameter (only produced by apply_body with unk given).
     """
     amb = set()
     i = 0
     n = len(codes)
+    poisoned = False
+
+    real_unk = unk
+
+    class _U:
+        """unk proxy: once a group swallowed an empty / non-numeric parameter the roles of all following codes of this
+        list are open, so nothing becomes known again before the next sequence"""
+        def discard(self, x):
+            if not poisoned:
+                real_unk.discard(x)
+
+        def clear(self):
+            if not poisoned:
+                real_unk.clear()
+    unk_ = _U() if unk is not None else None
     while i < n:
         c = codes[i]
+        if real_unk is not None and c in EXT and any(x < 0 for x in codes[i + 1:i + 5]):
+            if (i + 1 < n and codes[i + 1] < 0) or (i + 2 < n and codes[i + 1] == 5 and codes[i + 2] < 0) or \
+                    (i + 1 < n and codes[i + 1] == 2 and any(x < 0 for x in codes[i + 2:i + 5])):
+                poisoned = True
+                real_unk.update(SLOTS)
         if c == 0:
             state.clear()
+            if unk is not None:
+                unk_.clear()
+            i += 1
+        elif c < 0:
+            # empty parameter (ECMA default 0 = reset, or ignored) / non-numeric parameter: everything set so far is open
+            unk.update(SLOTS)
             i += 1
         elif c in EXT:
             slot = EXT[c]
             if i + 2 < n and codes[i + 1] == 5:
                 v = codes[i + 2]
-                if v > 255:
-                    amb.add('range')
                 state[slot] = ('idx', v)
+                if unk is not None:
+                    unk_.discard(slot)
+                if v > 255 or v < 0:
+                    amb.add('range')
+                    if unk is not None:
+                        unk.add(slot)
                 i += 3
             elif i + 4 < n and codes[i + 1] == 2:
                 r, g, b = codes[i + 2:i + 5]
-                if max(r, g, b) > 255:
-                    amb.add('range')
                 state[slot] = ('rgb', r, g, b)
+                if unk is not None:
+                    unk_.discard(slot)
+                if max(r, g, b) > 255 or min(r, g, b) < 0:
+                    amb.add('range')
+                    if unk is not None:
+                        unk.add(slot)
                 i += 5
             elif i + 1 >= n or (codes[i + 1] in (2, 5)):
                 # the group is cut short by the end of the list: it contributes nothing (tag only, the
-                # reading "contributes nothing" is what C18 states; C02 treats the tag as an ambiguity)
+                # reading "contributes nothing" is what C18 states; C02 leaves that colour slot open)
                 amb.add('truncated')
+                if unk is not None:
+                    unk.add(slot)
                 i = n
             else:
                 amb.add('incomplete')
+                if unk is not None:
+                    unk.update(SLOTS)   # how many of the following codes belong to the group is open
+                    poisoned = True
                 i += 1
         elif c in APPLY:
             state[APPLY[c]] = c
+            if unk is not None:
+                unk_.discard(APPLY[c])
             i += 1
         elif c in CLEAR:
             state.pop(CLEAR[c], None)
+            if unk is not None:
+                unk_.discard(CLEAR[c])
             i += 1
         else:
             i += 1  # unknown: ignored
     return amb
 
 
-def apply_body(state, body):
+def apply_body(state, body, unk=None):
     """Apply one SGR parameter string (the text between ESC[ and m).  Returns ambiguity tags."""
     if body == '':
         state.clear()
+        if unk is not None:
+            unk.clear()
         return set()
     amb = set()
     codes = []
@@ -125,11 +173,13 @@ def apply_body(state, body):
         if _TOKEN.match(t):
             codes.append(int(t))
         elif t == '':
-            amb.add('empty')       # ECMA: default value 0; library: ignored -> not asserted
-            codes.append(0)
+            amb.add('empty')       # ECMA: default value 0; library: ignored
+            codes.append(0 if unk is None else -1)
         else:
             amb.add('nonnumeric')  # ':' sub-parameters, blanks, private markers ...
-    amb |= apply_codes(state, codes)
+            if unk is not None:
+                codes.append(-2)
+    amb |= apply_codes(state, codes, unk)
     return amb
 
 
@@ -186,32 +236,39 @@ _CSI = re.compile('\x1b\\[([^\x40-\x7e]*)([\x40-\x7e])')
 _SGR_STRICT = re.compile('\x1b\\[([\x20-\x3f]*)m')
 
 
-def run(text, initial=None):
+def run(text, initial=None, track_unknown=False):
     """Interpret `text`.  Returns (cells, final_state, ambiguity_tags) with
     cells = [(char, frozen_state)] for every displayed character.
     Non-SGR CSI sequences and lone ESC are kept as displayed characters (they are text to the
     library, C02) and do not change the style.
+    track_unknown=True: cells are (char, frozen_state, frozenset(unknown slots)) - the slots whose value is not
+    determined because an earlier sequence was ambiguous (see apply_codes).
     """
     st = dict(initial or {})
+    unk = set() if track_unknown else None
     cells = []
     amb = set()
     pos = 0
     n = len(text)
+
+    def cell(ch):
+        if track_unknown:
+            return (ch, freeze(st), frozenset(unk))
+        return (ch, freeze(st))
     while pos < n:
         m = _CSI.match(text, pos) if text.startswith('\x1b[', pos) else None
         if m and m.group(2) == 'm':
             body = m.group(1)
             if not all(0x20 <= ord(ch) <= 0x3f for ch in body):
                 amb.add('body-bytes')
-            amb |= apply_body(st, body)
+            amb |= apply_body(st, body, unk)
             pos = m.end()
         elif m:
-            fs = freeze(st)
             for ch in m.group(0):
-                cells.append((ch, fs))
+                cells.append(cell(ch))
             pos = m.end()
         else:
-            cells.append((text[pos], freeze(st)))
+            cells.append(cell(text[pos]))
             pos += 1
     return cells, freeze(st), amb
 
@@ -264,6 +321,12 @@ def self_test():
     assert groups_of('1') == {'bold'} and groups_of('0') == {'*'} and groups_of('56') == frozenset()
     assert groups_of('38;2;1;2;3') == {'fg'} and groups_of('1;31') == {'bold', 'fg'}
     assert groups_of('x') == {'?'} and '?' in groups_of('38;5')
+    c3, _, a3 = run('\x1b[31;4m\x1b[38;5m\x1b[1mB\x1b[;3mC\x1b[0mD', track_unknown=True)
+    assert c3[0][1] == (('bold', 1), ('fg', 31), ('ul', 4)) and c3[0][2] == {'fg'}, c3[0]
+    assert c3[1][2] == frozenset(SLOTS) - {'ital'} and dict(c3[1][1])['ital'] == 3
+    assert c3[2][1] == () and c3[2][2] == frozenset()
+    c4 = run('\x1b[38;5;;4ma', track_unknown=True)[0]
+    assert c4[0][2] == frozenset(SLOTS), c4
     assert len(SLOTS) == 14 and set(DIRTY) == set(SLOTS)
     assert set(APPLY.values()) | set(EXT.values()) == set(SLOTS)
     assert set(CLEAR.values()) == set(SLOTS)
